@@ -102,6 +102,12 @@ CANARIES = [
     ('c20-module-level-parser', 'C20', 'mindsdb_sql/__init__.py', "        lexer, parser = MindsDBLexer(), MindsDBParser()\n", "        lexer, parser = MindsDBLexer(), _shared_parser(MindsDBParser)\n",
      'C20.fresh.get_lexer_parser.mindsdb'),
     ('c20-global-counter', 'C20', 'mindsdb_sql/planner/query_planner.py', "class QueryPlanner:\n", "PLANNED = []\n\n\nclass QueryPlanner:\n    def _note(self, q):\n        PLANNED.append(q)\n", 'C20.globals'),
+    ('c19-caret-off-by-one', 'C19', 'mindsdb_sql/__init__.py', "msgs.append('-' * (error_index + 1) + '^' * error_len)", "msgs.append('-' * error_index + '^' * error_len)", 'C19.caret.final'),
+    ('c19-no-shift', 'C19', 'mindsdb_sql/__init__.py', "            if line_num == error_line_num:\n                error_index -= shift\n", "            if line_num == error_line_num:\n                pass\n", 'C19.caret.shift.error-line'),
+    ('c19-truncate-line', 'C19', 'mindsdb_sql/__init__.py', "                line = line.ljust(token.index)\n", "                line = line.ljust(token.index - 1)\n", 'C19.caret.place'),
+    ('c19-unvalidated', 'C19', 'mindsdb_sql/__init__.py', "                if self.query_is_valid(tokens2):\n                    suggestions.append(value)\n                    continue\n\n                # try to replace token",
+     "                suggestions.append(value)\n                continue\n\n                # try to replace token", 'C19.validated'),
+    ('c19-eof-two-carets', 'C19', 'mindsdb_sql/__init__.py', "            error_len = 1\n", "            error_len = 2\n", 'C19.caret.select.eof'),
 ]
 
 
